@@ -31,6 +31,12 @@ P = {
              note="PARTIAL: data-race freedom is NOT claimed (plain-bool stop flag shared by three goroutines; needs a happens-before analysis outside this technique); preemption is only modelled at Sleep/semaphore operations; <=3 polls of the wait/timer loops (unwinding-checked under a fairness assumption: stop arrives / the clock passes the limit within 3 polls). Counterexamples are abstract (environment choices) and are not replayed natively. Known finding: stale timer stops the next search."),
  "C20": dict(ref="§4 C20", text="initialize / loadFromCache / saveToCache with every file-system and gob outcome nondeterministic (Open fails, Decode fails with arbitrary map contents, ...) and bookLock modelled by its own state word: no path re-locks the held lock (the hang), initialize returns with the lock released, a failed cache load is followed by a source build that starts with the lock free and a fresh map, a cache hit skips the build",
              note="PARTIAL: the gob codec itself (exact save/load round trip, every truncation makes Decode fail) is a library contract and is NOT decided; the native witness replays the lock obligations with a real garbage cache file."),
+ "C05": dict(ref="§4 C05-C07", text="root iteration of the real rootSearch with every child result arbitrary (incl. 'stopped') and stop arriving at any check: the first iteration always writes the root PV, every write stores a legal root move first (so pv[0][0] - the reported best move - is a legal root move by induction over iterations), no buffer is indexed out of range; savePV = move followed by the child line (lengths <= 3); draw-at-root behaviour (known finding)",
+             note="PARTIAL: <=3 root moves; legality of the whole PV and of the ponder move (stale child PV buffers) and termination under every limit are NOT encoded; 'position left unchanged' follows from StartSearch taking the position by value (not encoded). Contracts: search() results arbitrary in [ValueMin,ValueMax] or ValueNA. Counterexamples are abstract (not replayed natively)."),
+ "C06": dict(ref="§4 C05-C07", text="one node of the real search() with every unsound heuristic off and PVS, killer, IID, mate-distance pruning, hash-move ordering symbolic: for <=3 scripted pseudo-legal moves with arbitrary legality/draw flags and ghost true child values, recursive calls replaced by the fail-soft exactness contract, the node's result satisfies the same contract w.r.t. max(-child) / mate / stalemate and its own window (alpha,beta): fail-low is an upper bound, fail-high a lower bound, in-window is exact - the inductive step of 'depth-d search == minimax value'",
+             note="PARTIAL/inductive: <=3 moves per node (vxK), ply 1, depth 1..12; quiescence and root nodes and the single-root-move exception are not encoded; history/counter-move tables only influence the (scripted) generator order and are switched off inside the node. Base case (leaf = evaluation) and the generator contract (C01/C08) are separate. Abstract counterexamples."),
+ "C07": dict(ref="§4 C05-C07", text="one node of the real search() and qsearch() with ALL switches symbolic (default configuration included) and <=3 scripted moves: whenever the mate or stalemate counter is incremented no scripted move is legal and the in-check status matches, with the right value; a root without legal moves is reported as mated (-mate) in check and draw otherwise (real iterativeDeepening)",
+             note="The script is the complete pseudo-legal move list (C01/C08 contract); HasLegalMove (used by the repaired code) is summarised by 'some scripted move is legal' (C08). <=3 moves per node. Abstract counterexamples. Fixed finding: all-moves-futile node scored as stalemate."),
 }
 NA = {}
 for i in range(1,21):
